@@ -276,6 +276,9 @@ class FsmWorld(pipe.PipeWorld):
             self.archive_from = old
         if old == 'running' and new == 'updating':
             self.on_reload_triggered()
+        # injected not-allowed triggers are aimed at the transient states too, not only at the instants of user events
+        if new != 'running' and self.cfg['mix'].get('bad_trigger') and hasattr(self, 'fsm') and self.ch.flip('bad.after_transition', 1, 4):
+            self.sim.soon('bad_trigger', self.bad_trigger)
 
     archive_from = None
 
